@@ -375,7 +375,7 @@ def check_order(bat, op, pre, post, outcome):
                 want = list(req)
                 explicit_new = [x for x in new if x in want]
                 # only when every requested ID is distinct and was actually created (no skipped / refused entries)
-                if len(set(map(repr, want))) == len(want) and all(i in new for i in want):
+                if len(set(want)) == len(want) and all(i in new for i in want):  # (set(): 1 == True == 1.0 are one ID)
                   bat.ok(explicit_new == want, "edges-order", "bulk-explicit-ids-not-in-request-order", f"after {op!r} new explicit IDs appear as {explicit_new}, requested order {want}", "assert:view-order")
 
 
